@@ -1,5 +1,6 @@
 import XmppModel.Prelude.Hex
 import XmppModel.Model.Jid
+import XmppModel.Model.JidXml
 /-! Driver for C11 (line protocol: see harness/c11/c11.go).  Byte strings are hex (`-`
 empty); the results of the external normalisers on the inputs of the line are passed by the
 harness as oracle fields (`!` = the library returned an error). -/
@@ -135,6 +136,26 @@ def handle (args : List String) : Option String :=
   | ["seq", ops] => do
     let vals ← runSeq [] (splitList ops ';')
     pure (joinList (vals.map showSlot))
+  | ["melem", data, ll, dl] => do
+    let j ← pJid data ll dl
+    match marshalElemToks ⟨"", "j"⟩ [] j with
+    | some ts => pure (Xml.encToks ts)
+    | none => pure "none"
+  | ["mattr", data, ll, dl] => do
+    let j ← pJid data ll dl
+    match marshalAttrTok ⟨"", "j"⟩ j with
+    | some a => pure (hexEncode (strBytes a.value))
+    | none => pure "none"
+  | ["unelemtoks", toks, nl, nr, ip6, ip4, idna, idna2] => do
+    let inner ← Xml.decToks toks
+    let v := charDataOf 0 inner
+    let nl ← pOracle nl; let nr ← pOracle nr; let i6 ← parseBool ip6; let i4 ← parseBool ip4
+    let idna ← pOracle idna; let idna2 ← pOracle idna2
+    let N := match split true v with
+      | .ok (l, d, r) => mkNorm l nl r nr d i6 i4 idna idna2
+      | .error _ => mkNorm [] none [] none [] false false none none
+    let (j, ok) := unmarshalElemToks N ⟨[0x7a], 0, 1⟩ inner
+    pure s!"{showJid j} {showBool ok}"
   | ["utf8", s] => do
     let s ← hexDecode s
     pure (showBool (validUtf8 s))
